@@ -109,8 +109,8 @@ def ltt (off : Int) (dst : Bool) (n : String) : Ltt := ⟨off, dst, some (asc n)
 def sampleRules : List (Bool × Rule) := [
   (false, .fixed (ltt 0 false "UTC")),
   (false, .fixed (ltt (-36000) false "HST")),
-  (true, .fixed (ltt 89999 false "a-b+c12")),
-  (false, .fixed (ltt (-89999) false "XYZxyz")),
+  (true, .fixed (ltt 86399 false "a-b+c12")),
+  (false, .fixed (ltt (-86399) false "XYZxyz")),
   (false, .fixed (ltt 19800 false "+0530")),
   (false, .fixed (ltt (-1) false "ABC")),
   (false, sampleRule2),
@@ -120,7 +120,7 @@ def sampleRules : List (Bool × Rule) := [
   (false, .alt ⟨ltt 7200 false "IST", ltt 10800 true "IDT", .julian1 1, 0, .julian1 365, 89999⟩),
   (false, .alt ⟨ltt (-3600) false "AAA", ltt (-3600) true "BBBBBBB", .julian0 0, 1, .julian0 365, 59⟩),
   (true, .alt ⟨ltt 0 false "000", ltt 3600 true "a1+", .mwd 1 1 6, -604799, .mwd 12 5 0, 604799⟩),
-  (true, .alt ⟨ltt 89999 false "E+S", ltt (-89999) true "-DS", .julian0 59, -1, .julian1 60, 90000⟩),
+  (true, .alt ⟨ltt 86399 false "E+S", ltt (-86399) true "-DS", .julian0 59, -1, .julian1 60, 90000⟩),
   (false, .alt ⟨ltt 3661 false "ABCD", ltt 60 true "EFGHI", .mwd 6 3 3, 3600, .julian0 200, 61⟩)]
 
 theorem tz_roundtrip_samples :
@@ -143,8 +143,11 @@ def sampleSpellings : List (Bool × List Nat × Rule) := [
     .alt ⟨ltt 43200 false "NZST", ltt 46800 true "NZDT", .mwd 10 1 0, 7200, .mwd 3 3 0, 7200⟩),
   (false, asc "IST-2IDT,J1/0,365/24:59:59",
     .alt ⟨ltt 7200 false "IST", ltt 10800 true "IDT", .julian1 1, 0, .julian0 365, 89999⟩),
-  (true, asc "AAA24:59:59BBB,0/167:59:59,J365/-167:59:59",
-    .alt ⟨ltt (-89999) false "AAA", ltt (-86399) true "BBB", .julian0 0, 604799, .julian1 365, -604799⟩)]
+  (true, asc "AAA23:59:59BBB,0/167:59:59,J365/-167:59:59",
+    .alt ⟨ltt (-86399) false "AAA", ltt (-82799) true "BBB", .julian0 0, 604799, .julian1 365, -604799⟩),
+  (false, asc "AAA-23:59:59", .fixed (ltt 86399 false "AAA")),
+  (false, asc "AAA-22:59:59BBB,J1,J365",
+    .alt ⟨ltt 82799 false "AAA", ltt 86399 true "BBB", .julian1 1, 7200, .julian1 365, 7200⟩)]
 
 theorem tz_spellings_samples : ∀ p ∈ sampleSpellings, from_tz_string p.2.1 p.1 = .ok p.2.2 := by
   decide +kernel
@@ -161,7 +164,12 @@ def badRuleTexts : List (List Nat × Bool) := [
   (asc "EST5EDT,366,1", false), (asc "EST5EDT,1/25,2", false), (asc "EST5EDT,1/-1,2", false),
   (asc "EST5EDT,1/168,2", true), (asc "EST5EDT,1/1:60,2", true), (asc "EST5EDT,1/1:1:60,2", true),
   (asc "EST5EDT,1,2,", false), (asc "EST5EDT,1,2 ", true), (asc "EST5EDT,65536,2", true),
-  (asc "EST5EDT,M256.1.1,2", true), (asc "EST5EDT,J65536,2", true)]
+  (asc "EST5EDT,M256.1.1,2", true), (asc "EST5EDT,J65536,2", true),
+  -- F32: a stated or defaulted offset of 24 hours or more (field ranges respected: hh ≤ 24)
+  (asc "AAA24", false), (asc "AAA-24", false), (asc "AAA+24:00:00", true), (asc "AAA24:00:01", false),
+  (asc "AAA-24:59:59", false), (asc "XXX-24:30", false), (asc "AAA5BBB24,M3.2.0,M11.1.0", false),
+  (asc "AAA5BBB-24,M3.2.0,M11.1.0", true), (asc "AAA24BBB5,M3.2.0,M11.1.0", false),
+  (asc "AAA-23:00:00BBB,M3.2.0,M11.1.0", false), (asc "AAA-23:59:59BBB,J1,J365", true)]
 
 /-! malformed files, all derived from the accepted `sampleV2` / `sampleV1` / `sampleV3` -/
 def withV2 (f : TzFile) (g : Block → Block) : TzFile := { f with v2 := g f.v2 }
@@ -188,6 +196,12 @@ def badFiles : List (List Nat) :=
     -- DST flag, offset, designations
     (encodeTzif sampleV1).set (44 + 8 + 2 + 4) 2,
     encodeTzif (withV2 sampleV2 fun b => { b with types := [⟨-18000, false, 0⟩, ⟨-2147483648, true, 4⟩] }),
+    -- F32: an offset of 24 hours or more in a type record (even one no transition refers to)
+    encodeTzif (withV2 sampleV2 fun b => { b with types := [⟨-18000, false, 0⟩, ⟨86400, true, 4⟩] }),
+    encodeTzif (withV2 sampleV2 fun b => { b with types := [⟨-18000, false, 0⟩, ⟨-86400, true, 4⟩] }),
+    encodeTzif (withV2 sampleV2 fun b => { b with types := [⟨-18000, false, 0⟩, ⟨2147483647, true, 4⟩] }),
+    encodeTzif (withV2 sampleV2 fun b => { b with types := [⟨-18000, false, 0⟩, ⟨-14400, true, 4⟩, ⟨90000, false, 0⟩] }),
+    encodeTzif { sampleV1 with v1 := { sampleV1.v1 with types := sampleV1.v1.types.map fun t => { t with off := 86400 } } },
     encodeTzif (withV2 sampleV2 fun b => { b with names := asc "E!T" ++ [0] ++ asc "EDT" ++ [0] }),
     encodeTzif (withV2 sampleV2 fun b => { b with names := asc "ES" ++ [0, 0] ++ asc "EDT" ++ [0] }),
     encodeTzif (withV2 sampleV2 fun b => { b with names := asc "ESTTEDTT" }),
